@@ -43,6 +43,8 @@ pub struct Profile {
     pub p_stream: u64,
     pub p_worker_time_limit: u64,
     pub p_odd_resources: u64,
+    /// % of variants with fractional cpu/gpu amounts (several tasks then share one index)
+    pub p_fractional: u64,
     pub prio_levels: i32,
     pub p_pct: u64,
     pub p_uniform: u64,
@@ -85,6 +87,7 @@ impl Profile {
             p_stream: 10,
             p_worker_time_limit: 20,
             p_odd_resources: 40,
+            p_fractional: 0,
             prio_levels: 4,
             p_pct: 40,
             p_uniform: 25,
@@ -112,6 +115,14 @@ impl Profile {
                 p.fail_pct = 20;
                 p.w_cancel = 4;
                 p.max_tasks_per_submit = 16;
+            }
+            "C04" => {
+                p.name = "C04";
+                p.p_fractional = 55;
+                p.p_uniform = 35;
+                p.prefill = (1, 4);
+                p.max_tasks_per_submit = 24;
+                p.w_cancel = 3;
             }
             "C05" => {
                 p.name = "C05";
@@ -277,6 +288,18 @@ fn gen_variant(rng: &mut Rng, p: &Profile) -> VariantSpec {
     let u = 10_000u64;
     let mut entries = Vec::new();
     // cpus
+    if rng.chance(p.p_fractional, 100) {
+        let amount = *rng.pick(&[u / 4, u / 2, u / 2, 3 * u / 4, 5 * u / 4, 3 * u / 2, 5 * u / 2]);
+        let policy = *rng.pick(&[Policy::Compact, Policy::Compact, Policy::Tight, Policy::Scatter, Policy::ForceCompact, Policy::ForceTight]);
+        entries.push(entry(CPU, policy, amount));
+        match rng.below(6) {
+            0 => entries.push(entry(GPU, Policy::Compact, u / 2)),
+            1 => entries.push(entry(GPU, *rng.pick(&[Policy::Tight, Policy::Scatter]), 3 * u / 2)),
+            2 => entries.push(entry(MEM, Policy::Compact, 15 * u / 2)),
+            _ => {}
+        }
+        return VariantSpec { n_nodes: 0, min_time_s: 0, entries };
+    }
     let c = match rng.below(12) {
         0 => entry(CPU, Policy::Compact, u / 2),
         1 => entry(CPU, Policy::Compact, 3 * u / 2),
